@@ -1379,11 +1379,11 @@ class VM:
             return arr.length
 
         def toString_fn(*args):
-            return array_to_string(arr)
+            return array_to_string(arr, ",", vm._to_string)
 
         def join_fn(*args):
             sep = "," if not args or args[0] is UNDEFINED else to_string(args[0])
-            return array_to_string(arr, sep)
+            return array_to_string(arr, sep, vm._to_string)
 
         def callback_arg(args):
             """The callback argument of an iteration method; it must be callable."""
